@@ -46,6 +46,8 @@ TrAcqM   == IsEvent("acq", 1)
 TrNotify == IsEvent("notify", 1) /\ (m_ss_body \/ m_cl_body)
 TrRelM   == IsEvent("rel", 1) /\ (m_ss_rel \/ m_cl_rel)
             /\ selArgs' = ArgsRec(E.obs.args) /\ closing' = E.obs.closing
+TrFdClose == IsEvent("fdclose", 1) /\ (m_top \/ m_run)
+             /\ closedfds' = closedfds \cup {E.args[1]} /\ closedfds' # closedfds
 TrJoined == IsEvent("joined", 1) /\ m_cl_join
 TrClosed == IsEvent("closed", 1) /\ m_cl_end /\ E.obs.alive = (started /\ ~sdone)
 
@@ -57,7 +59,11 @@ TrRelS   == IsEvent("rel", 2) /\ s_cs /\ pc'[2] # "s_woke"
             /\ selArgs' = ArgsRec(E.obs.args) /\ closing' = E.obs.closing
 TrSelBegin == IsEvent("sel_begin", 2) /\ s_sel_begin
               /\ myargs.r = SeqSet(E.args.r) /\ myargs.w = SeqSet(E.args.w)
-TrSelEnd == IsEvent("sel_end", 2) /\ s_sel_end /\ res' = ResRec(E.obs)
+TrSelEnd == IsEvent("sel_end", 2) /\ s_sel_end /\ pc'[2] = "s_post" /\ res' = ResRec(E.obs)
+TrSelErr == IsEvent("sel_err", 2) /\ s_sel_end /\ pc'[2] = "s_poll_begin"
+            /\ E.args[1] = "OSError" /\ E.args[2] = 9
+TrPollBegin == IsEvent("sel_begin", 2) /\ s_poll_begin /\ E.args.r = <<RawWaker>> /\ E.args.w = <<>>
+TrPollEnd == IsEvent("sel_end", 2) /\ s_poll_end /\ res' = ResRec(E.obs)
 TrPost   == IsEvent("post", 2) /\ s_post /\ queue' = Append(queue, ResRec(E.args))
 
 (* ---- environment *)
@@ -66,6 +72,7 @@ TrReady  == IsEvent("ready", 3) /\ e_loop
 
 TraceNext == \/ TrWsendM \/ TrTstart \/ TrHs \/ TrReg \/ TrCb2 \/ TrWrecv \/ TrConsume
              \/ TrAcqM \/ TrNotify \/ TrRelM \/ TrJoined \/ TrClosed
+             \/ TrFdClose \/ TrSelErr \/ TrPollBegin \/ TrPollEnd
              \/ TrAcqS \/ TrWait \/ TrWoke \/ TrRelS \/ TrSelBegin \/ TrSelEnd \/ TrPost
              \/ TrReady
 TraceSpec == TraceInit /\ [][TraceNext]_<<vars, tid, l>>
